@@ -29,3 +29,4 @@ import LP.Props.C13Int
 #print axioms LP.FSet.C13_isPoint
 #print axioms LP.FSet.C13_isFull
 #print axioms LP.FSet.C13_countInt
+#print axioms LP.FSet.C13_set_countInt
